@@ -715,6 +715,9 @@ var extMutators = map[string][]int{
 	"sort.Strings": {0}, "sort.Ints": {0}, "sort.Float64s": {0}, "sort.Slice": {0}, "sort.SliceStable": {0},
 	"sort.Sort": {0}, "sort.Stable": {0},
 	"slices.Sort": {0}, "slices.SortFunc": {0}, "slices.SortStableFunc": {0}, "slices.Reverse": {0},
+	// in-place editors: they compact, shift or overwrite the elements of the slice they are given
+	"slices.Delete": {0}, "slices.DeleteFunc": {0}, "slices.Compact": {0}, "slices.CompactFunc": {0},
+	"slices.Insert": {0}, "slices.Replace": {0}, "maps.DeleteFunc": {0}, "maps.Copy": {0},
 	"google.golang.org/protobuf/proto.Merge": {0}, "google.golang.org/protobuf/proto.Reset": {0},
 	"google.golang.org/protobuf/proto.Unmarshal": {1}, "encoding/json.Unmarshal": {1},
 	"(*encoding/json.Decoder).Decode": {1},
@@ -827,6 +830,21 @@ func (st *fstate) call(ins ssa.Instruction, cc *ssa.CallCommon, res ssa.Value) {
 	for _, callee := range callees {
 		if callee == nil {
 			continue
+		}
+		// a method expression or method value used as a function ((*Edge).Copy handed to a generic
+		// helper) reaches here as a synthetic wrapper: judge the method it forwards to
+		if callee.Synthetic != "" && callee.Blocks != nil && (strings.Contains(callee.Synthetic, "thunk") || strings.Contains(callee.Synthetic, "wrapper")) {
+			for _, b := range callee.Blocks {
+				for _, in2 := range b.Instrs {
+					if call, ok := in2.(*ssa.Call); ok {
+						if sc := call.Common().StaticCallee(); sc != nil && len(call.Common().Args) == len(args)+len(callee.FreeVars) {
+							if len(callee.FreeVars) == 0 {
+								callee = sc
+							}
+						}
+					}
+				}
+			}
 		}
 		// anonymous function of this same top-level function: bind parameters, body is inlined
 		if callee.Parent() != nil && topOf(callee) == st.fn {
